@@ -92,7 +92,7 @@ impl Prop for C02 {
         (iso_strategy(tier.pick(8, 10), tier.pick(6, 15)), ring, any::<bool>(), any::<u8>()).prop_map(|(iso, ring, reduced, threads)| Case { iso, ring, reduced, threads }).boxed()
     }
     fn cases(tier: Tier) -> u32 { tier.pick(5_000, 80_000) }
-    fn shards(_: Tier) -> usize { 8 }
+    fn shards(tier: Tier) -> usize { tier.pick(8, 16) }
     fn replay_repeats() -> usize { 5 }
     fn run(case: &Case, ctx: &Ctx) -> Outcome { to_outcome(run_case(case, ctx.tier)) }
 }
